@@ -283,6 +283,16 @@ def run_graph(ctx, spec, rng, n_ops):
           v.value = v.value + 1
           v.vf_poison = 'POISON'
       ctx.check(G.canon(g) == G.canon(sh.root), 'clone:mutation_leaked_to_original', None)
+      # numpy-backed leaves are mutable objects too: write into the clone's arrays in place
+      c2 = nnx.clone(g)
+      n_np = 0
+      for _, v in G.ref_leaves(c2):
+        a = v.raw_value if G._is_var(v) else v
+        if isinstance(a, np.ndarray):
+          a += 1000.0
+          n_np += 1
+      if n_np:
+        ctx.check(G.canon(g) == G.canon(sh.root), 'clone:shares_numpy_buffer', lambda: dict(numpy_leaves=n_np))
     elif op in ('update', 'partial_update', 'update_from_merge'):
       st = nnx.state(g)
       if op == 'partial_update':
@@ -458,7 +468,8 @@ def run(ctx):
   for i in ctx.indices(n, 'graph'):
     rng = ctx.rng('graph', i)
     big = ctx.tier == 'thorough' and i % 10 == 0
-    spec = G.gen_spec(rng, max_nodes=40 if big else 8, max_vars=12 if big else 6, p_alias=rng.choice([0.0, 0.3, 0.3, 0.6]))
+    spec = G.gen_spec(rng, max_nodes=40 if big else 8, max_vars=12 if big else 6, p_alias=rng.choice([0.0, 0.3, 0.3, 0.6]),
+                      generic_pytrees=True, numpy_values=True)
     if arrays_in_pytrees(spec):
       for nd in spec['nodes']:
         if nd['kind'] != 'module':
